@@ -24,6 +24,8 @@ pub const FAULTS: &[&str] = &[
     "rock x with", "rock x like", "roll x into", "say roll", "put x at into y", "say -",
     // (a') the last element of a list is missing after its separator word
     "rock x with 4, 5, and", "let x be with 1, 2, and", "say 1 plus 2, and", "fun taking 1, and", "say fun taking 1, 2 &", "rock x with 1 &", "rock x with 1, 2 'n'", "fun takes k and", "fun takes k, and", "say 1 plus 2, and\nsay 3",
+    // (a'') a poetic literal that ends in a free-standing hyphen
+    "x is a -", "x is cold without a -", "rock x like a -", "the zed's a lovely -",
     // (b) required keyword removed
     "put 1 x", "let x 5", "take it to top", "take it the top", "take to the top", "say x is greater y", "say x is as big y", "say x is as y",
     "break it", "knock x up", "build x down", "x 5", "the is 5", "my", "put 1 into the",
@@ -42,6 +44,23 @@ pub const FAULTS: &[&str] = &[
     // stray tokens where a statement must start
     "else 1", ", say 1", ". say 1", "and 1", "is 5", "at 0", "with 1", "taking 1", "up", "5", "\"s\"", "true", "not x", "plus 1", "& 1", "'n' 1", "as big as", "than x", "into x", "back", "top", "like x",
 ];
+
+/// two operands with no operator between them, in every statement that takes an expression
+pub fn juxtaposed_faults() -> Vec<String> {
+    const A: &[&str] = &["x", "5", "\"s\"", "true", "it", "fun taking 1", "x at 0", "the zed", "mysterious"];
+    const B: &[&str] = &["y", "5", "\"t\"", "nothing", "it", "0.5", "the yod", "empty"];
+    let mut v = Vec::new();
+    for a in A {
+        for b in B {
+            v.push(format!("say {} {}", a, b));
+            v.push(format!("put {} {} into z", a, b));
+            v.push(format!("rock z with {} {}", a, b));
+            v.push(format!("say 1 plus {} {}", a, b));
+            v.push(format!("give back {} {}", a, b));
+        }
+    }
+    v
+}
 
 pub const HEADER_FAULTS: &[(&str, &[&str])] = &[("if", &["if", "if c is", "if c c", "if else"]), ("while", &["while", "while c and", "while c c"]), ("until", &["until", "until not", "until c c"]), ("takes", &["@ takes", "@ takes k,", "@ takes 5", "@ takes k k", "takes k", "@ takes k and"])];
 
@@ -169,6 +188,14 @@ impl C13 {
                 let line = 1 + pre.matches('\n').count() as u32;
                 (format!("{}{}{}{}", pre, f, if nl { "\n" } else { "" }, suf), line, f.to_string())
             }
+            5 => {
+                let jf = juxtaposed_faults();
+                let c = (idx / jf.len() as u64) as usize;
+                let f = &jf[(idx % jf.len() as u64) as usize];
+                let (pre, suf, nl) = CONTEXTS[c];
+                let line = 1 + pre.matches('\n').count() as u32;
+                (format!("{}{}{}{}", pre, f, if nl { "\n" } else { "" }, suf), line, f.to_string())
+            }
             4 => {
                 // far lines: the fault sits on line 255..65537
                 let ks = [254usize, 255, 256, 65535, 65536];
@@ -220,6 +247,7 @@ impl Check for C13 {
             ("shapes x header x header faults".into(), *self.header_prefix.last().unwrap()),
             ("contexts x two-line faults".into(), (CONTEXTS.len() * MULTILINE_FAULTS.len()) as u64),
             ("far lines x faults".into(), (5 * 2 * FAULTS.len()) as u64),
+            ("contexts x juxtaposed operands".into(), (CONTEXTS.len() * juxtaposed_faults().len()) as u64),
         ]
     }
     fn describe(&self, fam: usize, idx: u64) -> Value {
